@@ -75,7 +75,7 @@ def main():
     tier = common.tier()
     rnd = common.rng(PROP, "plan")
     items = plan(tier, rnd)
-    nshards = 8 if tier == "quick" else 16
+    nshards = 16 if tier == "quick" else 16
     nshards = nshards * (1 if tier == "quick" else 4)
     jobs = [dict(seed="%d/%s/%d" % (common.seed(), PROP, s), items=items[s::nshards]) for s in range(nshards)]
     R = common.Run(PROP, "exploration", RULE)
